@@ -187,6 +187,12 @@ func cmdCheck(args []string) int {
 		p.Timeout = 60 * time.Second
 		p.TwoAgree = true
 	}
+	if l := loadLedger(id); l != nil && !*update {
+		p.Claimed = map[string]bool{}
+		for k := range l.Keys {
+			p.Claimed[k] = true
+		}
+	}
 	run := runProperty(w, lib, p, id, tier)
 	return run.report(id, tier, seed, start, *update)
 }
